@@ -154,6 +154,55 @@ def regress_round(run, group):
     lib.validate_trace(run, spec, tp, kfs, label=f"regress[{group}]")
 
 
+PROTO_CONSTS = "CONSTANT Keys = {0}\n"
+
+
+def proto_mc(run):
+    """ExecProtocol.tla against every environment (small slab, bounded steps): NoLostWake, QuiescentWhenSettled"""
+    cfg = ("SPECIFICATION MSpec\nCONSTANT Keys = {0, 1, 2}\nCONSTANT MaxSteps = %d\nCONSTANT MaxQueue = 4\n"
+           "INVARIANT TypeOK\nINVARIANT NoLostWake\nINVARIANT QuiescentWhenSettled\nCHECK_DEADLOCK FALSE\n"
+           % (13 if run.quick else 16))
+    lib.mc(run, "MC_Proto", cfg, {}, need_actions=("MNext",), label="MC_Proto[3 keys]")
+
+
+def proto_suite(run, selftest=False):
+    """impl -> spec on executions nobody wrote for this purpose: the repository's own tests, recorded at the
+    executor's linearisation points and validated against ExecProtocol.tla (one case per Command instance)"""
+    cases = lib.record_suite(run)
+    lib.validate_simple(run, "Trace_Proto", cases, consts=PROTO_CONSTS, marker='"e":"new"',
+                        label="protocol[repository test suite]")
+    if selftest:
+        # binding self-test: flip the recorded `woken` flag of one poll that was woken; must be rejected
+        lines = open(cases).read().splitlines()
+        for i, l in enumerate(lines):
+            if '"e":"polled"' in l and l.endswith('"d":1}'):
+                lines[i] = l[:-len('"d":1}')] + '"d":0}'
+                break
+        else:
+            raise lib.ToolError("protocol self-test found nothing to corrupt")
+        s = max(j for j in range(i + 1) if '"e":"new"' in lines[j])
+        e = next((j for j in range(i + 1, len(lines)) if '"e":"new"' in lines[j]), len(lines))
+        bad = run.path("proto.corrupt")
+        with open(bad, "w") as f:
+            f.write("\n".join(lines[s:e]) + "\n")
+        rc, o = lib.tlc("Trace_Proto", lib.SIMPLE_CFG.format(consts=PROTO_CONSTS), {"TRACE": bad}, dfs=True, tag="st")
+        if "REJECTED_AT" not in o:
+            raise lib.ToolError("Trace_Proto accepted a corrupted trace")
+        run.stages.append({"stage": "binding-selftest", "spec": "Trace_Proto", "corruptions_rejected": 1})
+
+
+def proto_harness(run, name, seed, n):
+    """the same protocol validation on the executions of a random round of the harness (thousands of wakes,
+    spawns, aborts and evictions per round)"""
+    cp, tp, raw = run.path(f"p_{name}.cases"), run.path(f"p_{name}.trace"), run.path(f"p_{name}.raw")
+    lib.gen_cases(cp, seed, n, "direct,stream", "mixed", 3, 18, 8)
+    lib.run_harness(cp, tp, proto=raw)
+    cases = run.path(f"p_{name}.pcases")
+    rc, summary = lib.sh(["python3", os.path.join(lib.ROOT, "gen", "proto.py"), raw, cases], check=True)
+    run.stages.append({"stage": f"record[harness {name}]", "kind": "recording", **json.loads(summary.strip().splitlines()[-1])})
+    lib.validate_simple(run, "Trace_Proto", cases, consts=PROTO_CONSTS, marker='"e":"new"', label=f"protocol[harness {name}]")
+
+
 def report_known(run):
     """print KNOWN-FINDING lines for the findings of this property that the run actually hit"""
     hits = {"D9": run.kfhits[0], "D10": run.kfhits[1], "D12": run.kfhits[2]}
@@ -194,6 +243,11 @@ def c07(run):
     # flatten_unordered keeps the waker it was polled with: the model-checked (strict) model evicts a task
     # stuck in it, the code does not (known deviation D12, admitted by the trace specification and counted)
     mc_and_replay(run, "flat1", 5 if q else 7, ALL_INV, ["direct", "core"], cap=2500 if q else 40000)
+    # the executor protocol itself (eviction test, woken flag, queue discipline), on executions of the
+    # repository's own tests and of a harness round
+    proto_mc(run)
+    proto_suite(run, selftest=True)
+    proto_harness(run, "mixed", run.seed + 11, 600 if q else 6000)
     report_known(run)
 
 
@@ -227,6 +281,9 @@ def c05(run):
     random_round(run, "hosts", run.seed, 1000 if q else 10000, hosts, "mixed", 3 if q else 4, 14, selftest=True)
     # the legacy capability API host, on the part of the family it can express
     random_round(run, "legacy", run.seed + 5, 2400 if q else 24000, ["core_legacy"], "mixed", 2, 18, budget=9)
+    # no wake-up lost inside one executor, whoever hosts it: ExecProtocol.tla on the repository's own tests
+    proto_mc(run)
+    proto_suite(run, selftest=True)
     report_known(run)
 
 
@@ -238,6 +295,8 @@ def c01(run):
     random_round(run, "core", run.seed, 1200 if q else 12000, ["core", "bridge_bin", "core_legacy"], "mixed", 3, 20,
                  selftest=True)
     regress_round(run, "core")
+    # every settle ends with an empty ready queue: ExecProtocol.tla on the repository's own tests
+    proto_suite(run)
     report_known(run)
 
 
@@ -271,6 +330,8 @@ def c13(run):
     random_round(run, "long", run.seed, 60 if q else 400, ["core", "bridge_bin", "bridge_json"], "mixed", 2,
                  300 if q else 2000, selftest=True)
     mc_and_replay(run, "flat1", 5 if q else 6, ["Released"], ["core"], cap=1500 if q else 20000)
+    # slab occupancy after every settle, on the repository's own tests (ExecProtocol.tla)
+    proto_suite(run)
     # many different programs with aborts and drops, medium length (occupancy after every call)
     random_round(run, "broad", run.seed + 9, 900 if q else 9000, ["direct", "core", "bridge_bin"], "mixed", 3, 30)
     # requests spent by an undecodable response must be forgotten as well
